@@ -37,10 +37,12 @@ def run_thread(fn, name):
     return t
 
 
-def trace_gate(thread_body, code_name, before_source_fragment, gate, filename_part):
+def trace_gate(thread_body, code_name, before_source_fragment, gate, filename_part, after=False):
     """run thread_body with a line trace that hits `gate` just before the first line of function
-    `code_name` whose source contains `before_source_fragment`"""
+    `code_name` whose source contains `before_source_fragment` (after=True: just AFTER that line has been executed,
+    i.e. before the next line of the same frame - e.g. right after a test has been evaluated)"""
     import linecache
+    seen = {}
 
     def tracer(frame, event, arg):
         if frame.f_code.co_name != code_name or filename_part not in frame.f_code.co_filename:
@@ -49,7 +51,13 @@ def trace_gate(thread_body, code_name, before_source_fragment, gate, filename_pa
         def local(frame, event, arg):
             if event == 'line':
                 src = linecache.getline(frame.f_code.co_filename, frame.f_lineno)
-                if before_source_fragment in src:
+                if after:
+                    if seen.get(id(frame)):
+                        seen[id(frame)] = False
+                        gate.hit()
+                    elif before_source_fragment in src and gate.armed:
+                        seen[id(frame)] = True
+                elif before_source_fragment in src:
                     gate.hit()
             return local
         return local
